@@ -68,6 +68,8 @@ class CapturedPath:
         for subpath_item in reversed(subpath):
           path, prev_edge = self._push_item_on_se_path(path, prev_edge,
               subpath_item.inverted())
+        # traversed backwards, the subpath ends with its first element
+        prev_edge_subpath = item.line._begins_with_edge()
       prev_edge = prev_edge_subpath
     elif isinstance(item.line, gfapy.line.unknown.Unknown):
       raise gfapy.RuntimeError(
@@ -81,6 +83,22 @@ class CapturedPath:
         "Error: items of type {} are not supported\t".format(item.line.__class__.__name__)+
         "Unsupported item: {}".format(item))
     return path, prev_edge
+
+  def _begins_with_edge(self):
+    # True if the first segment of the captured path is implied by an edge,
+    # i.e. the first item (after resolving the references to subpaths)
+    # is an edge
+    if not self.items:
+      return False
+    first = self.items[0]
+    if isinstance(first.line, gfapy.line.edge.GFA2):
+      return True
+    elif isinstance(first.line, gfapy.line.group.Ordered):
+      if first.orient == "+":
+        return first.line._begins_with_edge()
+      else:
+        return first.line._compute_captured_path()[1]
+    return False
 
   def _push_first_edge_on_se_path(self, path, items):
     oriented_edge = items[0]
